@@ -37,6 +37,7 @@ package executor
 //@   requires[inv]  e != nil && e.router != nil
 //@   modifies bank, events, actcalls, act_ctrl, act_pkt, packet.TransferAttributes.destinationCoin
 //@   ensures[C06] actcalls > old(actcalls) ==> act_pkt == packet
+//@   requires[C01] bankNonneg(bank)
 //@   ensures[C05] actcalls <= old(actcalls) + 1
 //@   ensures[C05] actcalls > old(actcalls) ==> packet != nil && packet.Action != nil && mapHas(e.router.routes, packet.Action.Id) && act_ctrl == mapGet(e.router.routes, packet.Action.Id)
 //@   ensures[C05] packet != nil && packet.Action != nil && !mapHas(e.router.routes, packet.Action.Id) ==> err != nil && actcalls == old(actcalls)
